@@ -266,7 +266,11 @@ class ReplaceRefMixin(object):
                     o_list_new = []
 
                     for o_el in o:
-                        if o_el in o_map:
+                        if o_el is None:
+                            # a reference that an earlier copy could not
+                            # resolve
+                            o_list_new.append(None)
+                        elif o_el in o_map:
                             o_list_new.append(o_map[o_el])
                         else:
                             warnings.warn(
